@@ -172,20 +172,31 @@ def run_shard(shard, ctx):
                 tick_list = sorted({tks[i] + d for i in sel_ for d in (-1, 0, 1) if tks[i] + d >= 0}) + [tks[-1] + 10**6]
             else:
                 tick_list = list(range(0, tks[-1] + 4)) + [tks[-1] + 10**6, tks[-1] + 2**32]
+            # a SECOND tempo map queried at the same tick immediately before every hinted query (short maps only):
+            # what another map was asked a moment ago is as invisible as the hint
+            others = [impl.parse(mk(sync=["0 = TS 4"] + ["%d = B %d" % tn for tn in om])).sync_track.bpm_events for om in (((0, 97531), (2, 10**6), (3, 1), (7, 120000), (11, 60000)), ((0, 1000),))] if shard[0] == "table" else []
             for tick in tick_list:
                 gov = max(i for i, t in enumerate(tks) if t <= tick)
                 try:
                     ref = be.timestamp_at_tick(tick)
                 except Exception as e:  # noqa: BLE001
                     ref = ("un-hinted query raises " + type(e).__name__, None)
-                for hint in range(0, len(tempo) + 1):
+                for hint in list(range(0, len(tempo) + 1)) + [-1 - k for k in range(len(others) * (len(tempo) + 1))]:
+                    if hint < 0:  # the same hints again, each right after another map answered for this tick
+                        k = -1 - hint
+                        hint = k % (len(tempo) + 1)
+                        for t_ in (tick + 1, tick):  # ... so that the other map's LAST answer is for this very tick
+                            try:
+                                others[k // (len(tempo) + 1)].timestamp_at_tick(t_)
+                            except Exception:  # noqa: BLE001
+                                pass
                     try:
                         got = be.timestamp_at_tick(tick, start_iteration_index=hint)
                     except ValueError:
                         got = "ValueError"
                     except Exception as e:  # noqa: BLE001
                         got = "raises " + type(e).__name__
-                    ctx.case(("table", tempo, tick, hint), nontrivial=hint > 0, sample=dict(tempo=[list(x) for x in tempo], tick=tick, hint=hint, governing=gov))
+                    ctx.case(("table", tempo, tick, hint, ctx.evaluations), nontrivial=hint > 0, sample=dict(tempo=[list(x) for x in tempo], tick=tick, hint=hint, governing=gov))
                     ctx.evaluations += 1
                     ctx.hist["hint_ok" if hint <= gov else "hint_beyond"] += 1
                     ok = ref[1] == gov and ((got == ref) if hint <= gov else (got == "ValueError"))
